@@ -13,8 +13,9 @@ EXPLANATION = ("B1 identifier octet - decided by exhaustive literal evaluation: 
                "the 256 first octets (short form: the octet itself and the input after it; long form: exactly X & 0x7f octets read, the remainder right after them), "
                "on literal length fields of every count 0..9 (and zero-padded ones up to 127 octets) for the value - the big-endian number, whichever code path "
                "computes it for that count -, and on every (first octet, fewer length octets buffered than announced) pair, which must be answered Incomplete; on its "
-               "enumerated paths every error is the failure of a primitive or Incomplete under a condition that says octets are missing (nothing is refused for how a "
-               "length is written); only definite forms are emitted; B3 BOOLEAN emits {0xFF} / {0x00}, "
+               "enumerated paths every error is the failure of a primitive, Incomplete under a condition that says octets are missing, or the very refusal the literal "
+               "evaluation got for lengths of 2^64 and more - which must be refused, never cut down to their low octets (nothing else is refused for how a "
+               "length is written: fields on both sides of each of the reader's own constants are among the literal inputs); only definite forms are emitted; B3 BOOLEAN emits {0xFF} / {0x00}, "
                "NULL emits empty content, every into_structure passes id / class through and keeps the children in order; B4 the TLV "
                "parser returns the slice after the announced length as remainder in both the primitive and the constructed arm, and the "
                "encoder leaves in its output buffer, on every path, what the buffer held before, the identifier octets of (class, structure of the payload, id), "
